@@ -880,11 +880,112 @@ def concat_cases(rng, n):
     return out
 
 
+# ----------------------------------------------------------------------------- round 7: float() / int() literals
+
+NUM_ALPH = '0123456789.eE+-  \t\x0b\x0c\x1c\x1f\x85\xa0infatyINFAN,x'
+
+
+def grammar_literal(rng):
+    """a text of the grammar [blanks] [sign] digits [. digits] [(e|E) [sign] digits] [blanks]"""
+    def digits(lo):
+        n = rng.choice([lo, 1, 1, 2, 3, 5, 17, 25] if lo == 0 else [1, 1, 2, 3, 5, 17, 25, 40])
+        return ''.join(rng.choice('0123456789') if rng.random() < 0.8 else '0' for _ in range(n))
+    sg = rng.choice(['', '', '', '+', '-'])
+    ip = digits(0)
+    fp = ('.' + digits(0)) if rng.random() < 0.6 else ''
+    if not (ip + fp).strip('.'):
+        ip = digits(1)
+    ex = (rng.choice('eE') + rng.choice(['', '', '+', '-']) + str(rng.choice([0, 1, 5, 18, 83, 180, 307, 308, 309, 323, 324, 325, 400, 7])).zfill(rng.choice([1, 2, 3]))) \
+        if rng.random() < 0.6 else ''
+    pad = ['', '', '', ' ', '\t', '  ', '\xa0', '\x85 ', '\x0b', '\x0c']
+    return rng.choice(pad) + sg + ip + fp + ex + rng.choice(pad)
+
+
+def number_cases(rng, n):
+    """literals handed to float() and int(): texts of the float grammar (plain and exponent notation, leading zeros, long
+    mantissas, exponents around the overflow / underflow thresholds, blanks of every kind around), the words inf / infinity /
+    nan in any case, decimal integers, and one-character mutations of all of these (most of them no numbers)"""
+    words = ['inf', 'Inf', 'INF', '-inf', '+Infinity', 'infinity', 'INFINITY', 'nan', 'NaN', '-nan', '+NAN', ' nan ', 'infinit', 'in', 'na', 'nane',
+             'infinityy', '- inf', 'i', 'n', '', ' ', '.', '+', '-', 'e', 'e5', '1e', '1e+', '.e1', '+.5', '-.5e-3', '5.', '5.e2', '1.2.3', '1ee5',
+             '1e5.0', '++1', '+-1', '1 2', '0x10', '1f', '1d5', '\x1c1', '1\x1f', '\x1f', '\xa01\x85', '1\xa0e5', '\xb2', '\xbd', '1\xb2']
+    ints = ['0', '-0', '+0', '007', '-1', '+1', ' 12 ', '\t-5\n', '12345678901234567890123', '1 2', '1.0', '1e3', '', '-', '+', '--1', '+-1', '0x1f', '1\x1f',
+            '\x1c1', '\xa07', '7\x85', '\xb2', '1\xb2', '٣'.encode('utf-8').decode('latin-1')]
+    lits = list(words) + FLOATS + FLOAT_TOKS + INT_TOKS + ints
+    for _ in range(n):
+        g = grammar_literal(rng)
+        lits.append(g)
+        if rng.random() < 0.5:
+            k = rng.randint(0, 2)
+            i = rng.randrange(len(g) + 1)
+            lits.append(g[:i] + rng.choice(NUM_ALPH) + g[i:] if k == 0 else g[:i] + g[i + 1:] if k == 1 else g[:i] + rng.choice(NUM_ALPH) + g[i + 1:])
+    lits = [x for x in lits if '_' not in x and all(ord(c) < 256 for c in x)]
+    out = []
+    for i in range(0, len(lits), 60):
+        out.append({'floats': lits[i:i + 60]})
+        out.append({'ints': lits[i:i + 60]})
+    return out
+
+
+def _num(f, x):
+    try:
+        v = f(x)
+    except ValueError:
+        return None
+    return fl(v) if isinstance(v, float) else v
+
+
+def fl_canon(v):
+    return ['f', 'nan'] if isinstance(v, list) and len(v) == 2 and v[0] == 'f' and 'nan' in v[1] else v
+
+
+import re as _re
+_FLOAT_RE = _re.compile(r'([+-]?)(\d*)(?:\.(\d*))?(?:[eE]([+-]?\d+))?\Z')
+_NUM_WS = '\t\n\x0b\x0c\r \x85\xa0'
+
+
+def spec_numbers(case, got):
+    """first principles: the decimal grammar read with exact rational arithmetic, rounded once (Fraction -> float)"""
+    kind = 'floats' if 'floats' in case else 'ints'
+    for lit, g in zip(case[kind], got):
+        t = lit.strip(_NUM_WS)
+        want = None
+        if kind == 'ints':
+            if _re.fullmatch(r'[+-]?[0-9]+', t):
+                want = int(t)
+        else:
+            m = _FLOAT_RE.match(t)
+            if m and (m.group(2) or m.group(3)) and all(c in '0123456789+-.eE' for c in t):
+                mant = int((m.group(2) or '') + (m.group(3) or '') or '0')
+                e = int(m.group(4) or 0) - len(m.group(3) or '')
+                if mant == 0:
+                    x = 0.0
+                elif e > 400 + 0 - len(str(mant)):
+                    x = math.inf
+                elif e < -400 - len(str(mant)):
+                    x = 0.0
+                else:
+                    try:
+                        x = float(Fraction(mant) * Fraction(10) ** e)
+                    except OverflowError:
+                        x = math.inf
+                want = fl(-x if m.group(1) == '-' else x)
+            else:
+                w = t.lstrip('+-') if t[:1] in ('+', '-') else t
+                if len(t) - len(w) <= 1 and w.lower() in ('inf', 'infinity'):
+                    want = fl(-math.inf if t[:1] == '-' else math.inf)
+                elif len(t) - len(w) <= 1 and w.lower() == 'nan':
+                    want = ['f', 'nan']
+        if fl_canon(g) != want:
+            return '%s(%r): expected %r got %r' % (kind[:-1], lit, want, g)
+    return None
+
+
 def gen_cases(rng, tier):
     cases = directed_cases() + order_cases() + blank_cases() + encoding_cases() + typed_cases()
     cases += block_cases(rng, 1500 if tier == 'thorough' else 60)
     cases += anytext_cases(rng, 2000 if tier == 'thorough' else 80)
     cases += concat_cases(rng, 300 if tier == 'thorough' else 12)
+    cases += number_cases(rng, 6000 if tier == 'thorough' else 400)
     cases += gen_hist(rng, 3000 if tier == 'thorough' else 240)
     n = 20000 if tier == 'thorough' else 700
     for _ in range(n):
@@ -892,7 +993,28 @@ def gen_cases(rng, tier):
         cases.append(c)
         if rng.random() < 0.2:
             cases.append(mutate(rng, c))
-    return cases
+    return balance(cases)
+
+
+def case_size(c):
+    if 'hist' in c:
+        return sum(case_size(st) for st in c['hist'])
+    if 'floats' in c or 'ints' in c:
+        return 12 * len(c.get('floats') or c.get('ints'))
+    return len(render(c)[0]) + 200
+
+
+def balance(cases, k=16):
+    """the model side evaluates contiguous shards of the case list in parallel: deal the cases out so that every shard gets
+    the same share of the long texts (the histories are ten times longer than a single table)"""
+    order = sorted(range(len(cases)), key=lambda i: -case_size(cases[i]))
+    buckets = [[] for _ in range(k)]
+    for j, i in enumerate(order):
+        r, q = divmod(j, k)
+        buckets[q if r % 2 == 0 else k - 1 - q].append(i)
+    # equal counts per bucket (the framework cuts the list into equal counts)
+    flat = [i for b in buckets for i in sorted(b)]
+    return [cases[i] for i in flat]
 
 
 # ----------------------------------------------------------------------------- implementation side
@@ -1036,6 +1158,10 @@ def zygote_main():
 
 
 def impl(case):
+    if 'floats' in case:
+        return [fl_canon(_num(float, x)) for x in case['floats']]
+    if 'ints' in case:
+        return [_num(int, x) for x in case['ints']]
     if 'hist' not in case:
         return impl_step(case)[0]
     import json
@@ -1087,6 +1213,10 @@ def model_args(case):
 
 
 def model_term(case):
+    if 'floats' in case:
+        return 'out (run_C11_floats [%s])' % '; '.join(coq_bs(x) for x in case['floats'])
+    if 'ints' in case:
+        return 'out (run_C11_ints [%s])' % '; '.join(coq_bs(x) for x in case['ints'])
     if 'hist' in case:
         return 'out (run_C11_hist [%s])' % '; '.join('(%s, %s, %s, %s, %s, %s)' % model_args(st) for st in case['hist'])
     return 'out (run_C11 %s %s %s %s %s %s)' % model_args(case)
@@ -1131,6 +1261,8 @@ def model_step(case, r, cm):
 
 
 def split_model(case, m):
+    if 'floats' in case or 'ints' in case:
+        return True, [fl_canon(mval(v)) for v in m]
     wf, r, cm = m
     if 'hist' not in case:
         return bool(wf), model_step(case, r, cm)
@@ -1301,6 +1433,8 @@ def fts_of(r):
 
 
 def spec(case, got):
+    if 'floats' in case or 'ints' in case:
+        return spec_numbers(case, got)
     if 'hist' not in case:
         return spec_step(case, got)
     steps = case['hist']
@@ -1335,18 +1469,25 @@ def spec(case, got):
 
 
 def nontrivial(case, got):
+    if 'floats' in case or 'ints' in case:
+        return ['numbers', 'floats' in case, sum(1 for g in got if g is None)]
     if 'hist' not in case:
         return nontrivial_step(case, got)
     return ['hist', case.get('_kind'), [nontrivial_step(st, g) for st, g in zip(case['hist'], got)]]
 
 
 def histkey(case, got):
+    if 'floats' in case or 'ints' in case:
+        return ['kind=numbers', 'numbers=' + ('float' if 'floats' in case else 'int')]
     if 'hist' not in case:
         return histkey_step(case, got)
     return ['kind=history', 'history=' + str(case.get('_kind')), 'history_steps=%d' % len(case['hist'])]
 
 
 def python_snippet(case):
+    if 'floats' in case or 'ints' in case:
+        f = 'float' if 'floats' in case else 'int'
+        return 'for x in %r:\n    try: print(repr(x), %s(x))\n    except ValueError: print(repr(x), None)' % (case.get('floats') or case.get('ints'), f)
     if 'hist' not in case:
         return python_snippet_step(case)
     return '\n'.join('# step %d\n%s' % (i, python_snippet_step(st)) for i, st in enumerate(case['hist']))
@@ -1420,19 +1561,26 @@ LEVEL_TEXT = ('Machine-checked Coq theorems about an executable model of read_ta
               'are neither "#" lines nor blank nor an MMseqs2 name row, in order, first error wins (C11_read_any_outfmt, C11_read_any_text, '
               'C11_read_infernal_any) - hence one feature per data line (C11_feature_count), comment/blank lines are irrelevant wherever '
               'they stand (C11_comments_irrelevant), the comments list of the model is the "#" lines in order (C11_comments_list), and two '
-              'texts one after the other read to the first result followed by the second (C11_read_concat); (8) no MMseqs2 column name '
+              'texts one after the other read to the first result followed by the second (C11_read_concat); (7) float() on e-values and '
+              'scores: every text of the grammar [sign] digits [. digits] [(e|E) [sign] digits] with blanks around it is the number with '
+              'exactly that mantissa and decimal exponent, and the words inf/infinity/nan in any case are read as such (C11_float_parse, '
+              'C11_float_words; the converse - whatever float() accepts is such a text - is tested, not proved); (8) no MMseqs2 column name '
               'reads as an integer, so a row holding a coordinate - any rendered hit row - is never taken for the name row '
               '(C11_names_row_never_hit). The model is tied to sugar.read_fts by differential testing on rendered hit lists, a mutation '
               'stream, an any-text stream (line soups), multi-block files (several "# Fields:" lines with different selections, repeated '
               'name rows, concatenated Infernal tables), a directed typed-column stream (every column of every table with signed, zero, '
-              'padded, exponent, inf/nan and non-numeric tokens), concatenation histories and multi-read histories; all statements of the '
+              'padded, exponent, inf/nan and non-numeric tokens), a literal stream (about 1 500 literals per quick run: grammar texts, words, '
+              'one-character mutations, blanks of every kind; the Gallina int()/float() against CPython and against an exact-rational '
+              'oracle), concatenation histories and multi-read histories; all statements of the '
               'modelled functions are executed in the quick tier.')
 LEVEL_NOTE = ('Trusted: Coq kernel/vm_compute, tools/gens/c11.py (tables), the correspondence harness, CPython int()/float()/str methods '
-              '(the Gallina int()/float() are compared with CPython on every case; float() is not characterised by a theorem, float values '
-              'are compared as exact decimal literals, DESIGN 5.3). Modelled rather than verified: core.py read_tabular and '
+              '(the Gallina int()/float() are compared with CPython on every case and on the literal stream; float() is characterised as a '
+              'grammar by C11_float_parse / C11_float_words in the accepting direction only; that CPython\'s float() is that function, and '
+              'that it rejects everything else, is tested; the binary value is not modelled: float values are kept as exact decimal literals '
+              '(mantissa, exponent) and the harness rounds them once with fractions.Fraction, DESIGN 5.3). int() and float() skip the C blanks, '
+              'U+0085 and U+00A0 but not 0x1c-0x1f, which str.strip() does skip (found by the literal stream; modelled as is_space_num). Modelled rather than verified: core.py read_tabular and '
               '_headers_from_fmtstrings, the three reader wrappers, the comments= option. The domain is Latin-1 text; decoding the bytes of a file '
-              '(encoding=, BOM) is CPython\'s and is only tested. Tested only (no theorem): agreement of the '
-              'Gallina float() with CPython; that the comments= list is filled while reading (the theorem is about the model\'s list); '
+              '(encoding=, BOM) is CPython\'s and is only tested. Tested only (no theorem): that the comments= list is filled while reading (the theorem is about the model\'s list); '
               'MMseqs2 fmtmode 4 and BLAST outfmt 7 header discovery combined with '
               'sep=None; several "# Fields:" blocks whose rows are read with sep=None; a last line without terminator in the rendered-file '
               'theorems (the any-text theorems (6) cover it); the sniffers '
